@@ -44,6 +44,34 @@ def cursorKeys : List (Int × Int) := [(KeyUp, 65), (KeyDown, 66), (KeyRight, 67
 
 def cursorSeq (final : Int) (decckm : Bool) : Seq := if decckm then .ss3 final else .csi [] final
 
+/-! ## Wire format of a parsed sequence (the inverse of the ansi parser on these shapes) -/
+
+open VaxisModel.Model.TermKey (decimal) in
+def renderParams : List (List Int) → Str
+  | [] => []
+  | [p] => (p.map decimal).intersperse [58] |>.flatten
+  | p :: rest => ((p.map decimal).intersperse [58] |>.flatten) ++ [59] ++ renderParams rest
+
+def renderCSI (inter : List Int) (params : List (List Int)) (final : Int) : Str :=
+  [27, 91] ++ inter ++ renderParams params ++ [final]
+
+def renderSeq : Seq → Str
+  | .print g => g
+  | .c0 b => [b]
+  | .esc f => [27, f]
+  | .ss3 b => [27, 79, b]
+  | .csi params final => renderCSI [] params final
+
+/-- The explicit key round-trip check for one event and one key-mode combination: if the xterm
+    legacy protocol expresses the chord, the encoder writes exactly that report and the report,
+    decoded by Vaxis, matches the original key and xterm modifiers. -/
+def roundtripOK (u : Uni) (k : Key) (deckpam decckm : Bool) : Bool :=
+  match xtermLegacy k.keycode (xtermMods k) (shiftedOf u k) decckm with
+  | none => true
+  | some s =>
+    decide (VaxisModel.Model.TermKey.encodeXterm u k deckpam decckm = renderSeq s) &&
+    decide (keyArrives u k (decodeKey u s))
+
 /-! ## Mouse -/
 
 def isWheel (b : Int) : Bool := b = 64 ∨ b = 65
